@@ -110,6 +110,12 @@ impl AffineRepr for AffinePoint {
         }
     }
 
+    fn is_zero(&self) -> bool {
+        // Must agree with `== AffinePoint::zero()`: the identity has two representatives,
+        // (0, 1) and (0, -1), and equality identifies them.
+        self.inner.x == Fq::ZERO
+    }
+
     fn generator() -> Self {
         Element::GENERATOR.into()
     }
